@@ -197,7 +197,7 @@ def bindIn (σ : St) (i : Nat) (x : String) (v : V) (overwrite : Bool) : St :=
 def isCallable (σ : St) : V → Bool
   | .ref a => match σ.obj? a with
     | some o => match o.kind with
-      | .func .. => true | .bound .. => true | .builtin n => n != "proto"
+      | .func .. => true | .bound .. => true | .builtin _ => true
       | _ => false
     | none => false
   | _ => false
@@ -766,6 +766,7 @@ def callFn : Nat → St → V → V → List V → Res V
       | none => throwErr σ "TypeError"
       | some o =>
         match o.kind with
+        | .builtin "proto" => .ok .undef σ      -- §15.3.4: Function.prototype accepts any arguments and returns undefined
         | .builtin "call" =>
           if isCallable σ thisArg then callFn n σ thisArg (args.head?.getD .undef) (args.drop 1)
           else throwErr σ "TypeError"
